@@ -119,4 +119,37 @@ Definition meta_value_for (s : list N) (key : list N) : option (list N) :=
   | Some (ms, _) => option_map m_value (find (fun m => bytes_eqb_l (m_key m) (label_from_string key)) ms)
   | None => None
   end.
+
+(* mmd_engine_update_metavalue_for_key: the text after the update.  The entry that is replaced is the first one whose
+   normalised key matches (the one a query returns); its text is replaced from the first non-blank byte after its colon
+   up to the start of the next entry (or the end of the block).  d_string_erase clamps a range that would run
+   backwards or past the end to "up to the end"; the scan for the colon is total here (every entry line has one). *)
+Definition upd_range (clean : list N) (ms : list meta) : option nat * option nat :=
+  fold_left (fun (acc : option nat * option nat) m =>
+               match acc with
+               | (None, en) => if bytes_eqb_l clean (m_key m) then (Some (m_start m), en) else acc
+               | (Some st, None) => (Some st, Some (m_start m))
+               | _ => acc
+               end) ms (None, None).
+
+Definition after_colon (s : list N) (st : nat) : nat :=
+  let from := skipn st s in
+  let k := length (take_while (fun b => negb (b =? 58)) from) in
+  (st + S k + length (take_while is_ws (skipn (S k) from)))%nat.
+
+Definition meta_update (s key value : list N) : list N :=
+  match meta_parse s with
+  | Some (ms, meta_end) =>
+    match upd_range (label_from_string key) ms with
+    | (Some st, en) =>
+      let b := after_colon s st in
+      let e := match en with Some e => e | None => meta_end end in
+      if Nat.ltb e b then firstn b s ++ value ++ [10]
+      else firstn b s ++ value ++ [10] ++ skipn e s
+    | (None, _) =>
+      if Nat.eqb meta_end 0 then key ++ [58; 9] ++ value ++ [10; 10] ++ s
+      else firstn meta_end s ++ key ++ [58; 9] ++ value ++ [10] ++ skipn meta_end s
+    end
+  | None => key ++ [58; 9] ++ value ++ [10; 10] ++ s
+  end.
 End WithWs.
